@@ -7,6 +7,7 @@ import (
 	"verif/core"
 	"verif/engine"
 	_ "verif/ctxprops"
+	_ "verif/docstore"
 	"verif/fsprops"
 	"verif/ops"
 )
